@@ -15,6 +15,7 @@
   `hits = buffered + accessAdded + accessDropped` is void; nothing is claimed there (see `C15_shutdown_voids`).
 -/
 import CachedProofs.Lemmas.StatsInv
+import CachedProofs.LayerB.Records
 
 namespace Cached
 
